@@ -58,19 +58,28 @@ def run(ctx):
         for d in tmp:
             shutil.rmtree(d, ignore_errors=True)
     ctx.obligation("forced hand-over orders (identity, reverse, random, unforced) through the verif hook in analyzeFunc: identical diagnostics and fact bytes (%d runs, %d functions)" % (nruns, nfun), nruns > 0 and not bad)
-    race_note = "race detector run only in the thorough tier"
-    if ctx.tier == "thorough":
+    race_note = "race detector not run"
+    if True:
         rc, out = common.sh("CGO_ENABLED=1 go build -race -tags verif -o %s/harness_race ./cmd/harness" % common.BIN, cwd=common.GO, timeout=1800)
         if rc == 0:
             races = []
-            for d in [os.path.join(common.VERIF, "corpus", "c10"), os.path.join(common.VERIF, "corpus", "c15"), common.REPO + "/inference"]:
-                rc2, o2, e2 = common.sh2([os.path.join(common.BIN, "harness_race"), "analyze", "-dir", d], timeout=1800)
+            rdirs = [os.path.join(common.VERIF, "corpus", "c10"), os.path.join(common.VERIF, "corpus", "c15")]
+            busy = ctx.scratch()
+            ds.gen_busy_package(random.Random(ctx.seed + 16), busy, nfun=60 if ctx.tier == "quick" else 300)
+            rdirs.append(busy)
+            if ctx.tier == "thorough":
+                rdirs.append(common.REPO + "/inference")
+            for d in rdirs:
+                rc2, o2, e2 = common.sh2([os.path.join(common.BIN, "harness_race"), "analyze", "-dir", d, "./..."], timeout=1800)
+                if rc2 != 0 and "DATA RACE" not in e2 + o2:
+                    races.append("%s: the -race harness failed: %s" % (d, (e2 + o2)[-600:]))
                 if "DATA RACE" in e2 or "DATA RACE" in o2:
                     races.append("%s: %s" % (d, (e2 + o2)[:1500]))
             ctx.obligation("race detector: the harness built with -race analysing the corpora and nilaway's own inference package reports no data race", not races)
             for r in races[:2]:
                 ctx.violation("race", "C16 fails on the real tool: data race reported:\n%s" % r)
-            race_note = "race detector run done"
+            shutil.rmtree(busy, ignore_errors=True)
+            race_note = "race detector run done on %d modules" % len(rdirs)
         else:
             race_note = "the -race build is not available in this sandbox (%s)" % out[-200:]
     ctx.coverage.update({"evaluations": nruns, "distinct_nontrivial": len(targets),
